@@ -47,9 +47,32 @@ Definition mem (n : string) (s : scope) : option member := lookup n (members s).
 Definition plain_overload (f : fdef) : Prop :=
   existsb is_property (fdecos f) = false /\ existsb is_overload (fdecos f) = true.
 
+(* the regenerated ladder is property, overload, accessor, implementation: handle_function unfolds to this *)
+Lemma handle_function_eq s f : handle_function s f =
+  if existsb is_property (fdecos f) then (set_member s (fname f) (MProp (fid f) None None), OProp)
+  else if existsb is_overload (fdecos f) then
+    if tracks s then
+      let old := match lookup (fname f) (buffer s) with Some l => l | None => [] end in
+      (mkScope (tracks s) (members s) (assign (fname f) (old ++ [fid f]) (buffer s)), OOverload)
+    else (s, ODropped)
+  else match base_property s (fname f) (fdecos f), lookup (fname f) (members s) with
+  | Some true, Some (MProp id _ d) => (set_member s (fname f) (MProp id (Some (fid f)) d), OSetter id)
+  | Some false, Some (MProp id st _) => (set_member s (fname f) (MProp id st (Some (fid f))), ODeleter id)
+  | _, _ =>
+      if tracks s then
+        match lookup (fname f) (buffer s) with
+        | Some (x :: l) =>
+            (mkScope (tracks s) (assign (fname f) (MFunc (fid f) (x :: l)) (members s)) (remove_key (fname f) (buffer s)),
+             OImpl (x :: l))
+        | _ => (set_member s (fname f) (MFunc (fid f) []), OImpl [])
+        end
+      else (set_member s (fname f) (MFunc (fid f) []), OImpl [])
+  end.
+Proof. reflexivity. Qed.
+
 Lemma tracks_step s it : tracks (step s it) = tracks s.
 Proof.
-  unfold step. destruct it as [f|i n]; simpl; [|reflexivity]. unfold handle_function.
+  unfold step. destruct it as [f|i n]; simpl; [|reflexivity]. rewrite handle_function_eq.
   destruct (existsb is_property (fdecos f)); [reflexivity|].
   destruct (existsb is_overload (fdecos f)); [destruct (tracks s) eqn:T; simpl; rewrite ?T; reflexivity|].
   destruct (base_property s (fname f) (fdecos f)) as [[|]|];
@@ -68,7 +91,7 @@ Lemma step_other_name s it n : iname it <> n -> mem n (step s it) = mem n s /\ b
 Proof.
   intros Hne. unfold step, mem, buf. destruct it as [f|i m]; simpl in *.
   2:{ rewrite lookup_assign_other by exact Hne. auto. }
-  unfold handle_function.
+  rewrite handle_function_eq.
   destruct (existsb is_property (fdecos f)); simpl.
   { rewrite lookup_assign_other by exact Hne. auto. }
   destruct (existsb is_overload (fdecos f)).
@@ -110,7 +133,7 @@ Lemma handle_function_local s f :
   (mem (fname f) (fst (handle_function s f)), buf (fname f) (fst (handle_function s f)), snd (handle_function s f)) =
   local_fn (tracks s) (mem (fname f) s) (buf (fname f) s) f.
 Proof.
-  unfold handle_function, local_fn. rewrite base_property_bp.
+  rewrite !handle_function_eq. unfold local_fn. rewrite base_property_bp.
   destruct (existsb is_property (fdecos f)).
   { unfold mem, buf. simpl. rewrite lookup_assign_same. reflexivity. }
   destruct (existsb is_overload (fdecos f)).
@@ -202,7 +225,7 @@ Theorem outcome_cases s f :
      | _, _ => o = OImpl (if tracks s then buf (fname f) s else [])
      end).
 Proof.
-  cbn zeta. unfold handle_function, mem, buf.
+  cbn zeta. rewrite handle_function_eq. unfold mem, buf.
   destruct (existsb is_property (fdecos f)); [repeat split; try discriminate; auto|].
   destruct (existsb is_overload (fdecos f)).
   { repeat split; try discriminate. intros _ _. destruct (tracks s); reflexivity. }
@@ -271,7 +294,7 @@ Proof.
   intros Ht. destruct (String.eqb (iname it) n) eqn:E.
   2:{ apply String.eqb_neq in E. apply step_other_name. exact E. }
   apply String.eqb_eq in E. unfold step, buf. destruct it as [f|i m]; simpl in *; [|reflexivity].
-  subst n. unfold handle_function. rewrite Ht.
+  subst n. rewrite handle_function_eq. rewrite Ht.
   destruct (existsb is_property (fdecos f)); [reflexivity|].
   destruct (existsb is_overload (fdecos f)).
   { simpl. rewrite lookup_assign_same. reflexivity. }
@@ -333,7 +356,7 @@ Proof.
   assert (Hs : buffer (step s it) = buffer s /\ snd (handle_item s it) <> OOverload /\
                forall ovs, snd (handle_item s it) = OImpl ovs -> ovs = []).
   { unfold step. destruct it as [f|i m]; simpl; [|repeat split; try discriminate].
-    unfold handle_function. rewrite Ht.
+    rewrite handle_function_eq. rewrite Ht.
     destruct (existsb is_property (fdecos f)); [repeat split; discriminate|].
     destruct (existsb is_overload (fdecos f)); [repeat split; discriminate|].
     destruct (base_property s (fname f) (fdecos f)) as [[|]|];
@@ -369,7 +392,7 @@ Lemma handle_impl s f : tracks s = true -> plain_impl s f ->
   mem (fname f) (step s (IDef f)) = Some (MFunc (fid f) (buf (fname f) s)) /\
   buf (fname f) (step s (IDef f)) = [].
 Proof.
-  intros Ht [Hp [Ho Hb]]. unfold step, mem, buf. simpl. unfold handle_function. rewrite Hp, Ho, Hb, Ht.
+  intros Ht [Hp [Ho Hb]]. unfold step, mem, buf. simpl. rewrite handle_function_eq. rewrite Hp, Ho, Hb, Ht.
   destruct (lookup (fname f) (members s)) as [[| |]|];
     destruct (lookup (fname f) (buffer s)) as [[|x l]|] eqn:E; simpl;
     rewrite ?lookup_assign_same, ?lookup_remove_same, ?E; auto.
@@ -404,7 +427,328 @@ Theorem setter_deleter_keep_property s f id st dl b :
   (forall m, m <> fname f -> mem m s' = mem m s) /\
   buffer s' = buffer s.
 Proof.
-  intros Hm Hp Ho Hb. cbn zeta. unfold step, mem in *. simpl. unfold handle_function. rewrite Hp, Ho, Hb, Hm.
+  intros Hm Hp Ho Hb. cbn zeta. unfold step, mem in *. simpl. rewrite handle_function_eq. rewrite Hp, Ho, Hb, Hm.
   destruct b; simpl; rewrite lookup_assign_same; repeat split; auto;
     intros m Hne; apply lookup_assign_other; auto.
 Qed.
+
+(* ---------- a re-binding definition resets the name (what makes if/else redefinitions work) ---------- *)
+Lemma bp_no_accessor isp n ds : own_accessor n ds = false -> bp isp n ds = None.
+Proof.
+  induction ds as [|d r IH]; simpl; [reflexivity|].
+  destruct d; auto; intros H; apply orb_false_iff in H; destruct H as [H1 H2]; rewrite H1; simpl; auto.
+Qed.
+
+Lemma local_unconditional t m1 m2 b it :
+  unconditional_binder it = true -> local_item t m1 b it = local_item t m2 b it.
+Proof.
+  destruct it as [f|i n]; simpl; [|reflexivity]. unfold local_fn. intros H.
+  destruct (existsb is_property (fdecos f)); [reflexivity|]. simpl in H.
+  apply andb_prop in H. destruct H as [H1 H2]. apply negb_true_iff in H1, H2. rewrite H1.
+  rewrite !(bp_no_accessor _ _ _ H2). reflexivity.
+Qed.
+
+Lemma local_overload t m b f : plain_overload_b f = true ->
+  local_fn t m b f = (if t then (m, b ++ [fid f], OOverload) else (m, b, ODropped)).
+Proof.
+  unfold plain_overload_b, local_fn. intros H. apply andb_prop in H. destruct H as [H1 H2].
+  apply negb_true_iff in H1. rewrite H1, H2. reflexivity.
+Qed.
+
+Theorem redefinition_resets n : forall its s1 s2,
+  tracks s1 = tracks s2 -> buf n s1 = buf n s2 -> rebinds_first n its = true ->
+  mem n (visit_items its s1) = mem n (visit_items its s2) /\
+  buf n (visit_items its s1) = buf n (visit_items its s2) /\
+  log_of n its (visit_log its s1) = log_of n its (visit_log its s2).
+Proof.
+  induction its as [|it r IH]; intros s1 s2 Ht Hb Hr; simpl in *; [discriminate|].
+  unfold named. destruct (String.eqb (iname it) n) eqn:E.
+  - apply String.eqb_eq in E.
+    pose proof (handle_item_local s1 it) as L1. pose proof (handle_item_local s2 it) as L2.
+    rewrite E, Ht, Hb in L1. rewrite E in L2.
+    assert (Hcase : (exists f, it = IDef f /\ plain_overload_b f = true /\ rebinds_first n r = true) \/
+                    unconditional_binder it = true).
+    { destruct it as [f|i m]; [|right; reflexivity].
+      destruct (plain_overload_b f) eqn:Ep; [left; eauto|right; exact Hr]. }
+    destruct Hcase as [[f [Hf [Hp Hr']]]|Hu].
+    + subst it. simpl in L1, L2. rewrite (local_overload _ _ _ _ Hp) in L1. rewrite (local_overload _ _ _ _ Hp) in L2.
+      assert (Hs : buf n (step s1 (IDef f)) = buf n (step s2 (IDef f)) /\
+                   snd (handle_item s1 (IDef f)) = snd (handle_item s2 (IDef f))).
+      { simpl. destruct (tracks s2); inversion L1; inversion L2; split; congruence. }
+      destruct Hs as [Hs1 Hs2].
+      destruct (IH (step s1 (IDef f)) (step s2 (IDef f))) as [I1 [I2 I3]]; auto.
+      { rewrite !tracks_step. exact Ht. }
+      rewrite I1, I2, I3, Hs2. auto.
+    + rewrite (local_unconditional _ (mem n s1) (mem n s2) _ _ Hu) in L1. rewrite <- L2 in L1. inversion L1 as [[M B O]].
+      destruct (scope_independence n r (step s1 it) (step s2 it)) as [I1 [I2 I3]]; auto.
+      { rewrite !tracks_step. exact Ht. }
+      destruct (scope_independence n r (step s2 it) (step s2 it)) as [J1 [J2 J3]]; auto.
+      rewrite I1, I2, I3, J1, J2, J3, O. auto.
+  - apply String.eqb_neq in E.
+    destruct (step_other_name s1 it n E) as [H1 H2]. destruct (step_other_name s2 it n E) as [H3 H4].
+    apply IH; [rewrite !tracks_step; exact Ht|congruence|exact Hr].
+Qed.
+
+(* the if/else form: after any prefix that leaves no pending overloads of the name, a suffix that re-binds the name
+   first gives the name exactly what the suffix alone gives it *)
+Corollary branch_redefinition n pre post s :
+  buf n (visit_items pre s) = buf n s -> rebinds_first n post = true ->
+  mem n (visit_items (pre ++ post) s) = mem n (visit_items post s) /\
+  buf n (visit_items (pre ++ post) s) = buf n (visit_items post s) /\
+  log_of n post (visit_log post (visit_items pre s)) = log_of n post (visit_log post s).
+Proof.
+  intros Hb Hr. rewrite visit_items_app. apply redefinition_resets; auto. apply tracks_visit.
+Qed.
+
+(* ---------- agreement with CPython's execution of the same body ---------- *)
+Definition is_other (d : deco) : bool := match d with DOther => true | _ => false end.
+Definition roles (ds : list deco) : list deco := filter (fun d => negb (is_other d)) ds.
+
+Lemma roles_rev ds : roles (rev ds) = rev (roles ds).
+Proof.
+  unfold roles. induction ds as [|d r IH]; simpl; [reflexivity|].
+  rewrite filter_app, IH. simpl. destruct (negb (is_other d)); simpl; [reflexivity|apply app_nil_r].
+Qed.
+
+Lemma existsb_roles (p : deco -> bool) ds : p DOther = false -> existsb p (roles ds) = existsb p ds.
+Proof.
+  intros Hp. induction ds as [|d r IH]; simpl; [reflexivity|].
+  destruct d; simpl; rewrite ?IH; try reflexivity. rewrite Hp. reflexivity.
+Qed.
+
+Lemma bp_roles isp n ds : bp isp n (roles ds) = bp isp n ds.
+Proof. induction ds as [|d r IH]; simpl; [reflexivity|]. destruct d; simpl; rewrite ?IH; reflexivity. Qed.
+
+Lemma local_fn_roles t m b i n ds : local_fn t m b (mkF i n (roles ds)) = local_fn t m b (mkF i n ds).
+Proof.
+  unfold local_fn. simpl. rewrite !existsb_roles by reflexivity. rewrite bp_roles. reflexivity.
+Qed.
+
+Definition not_cfunc (o : cobj) : Prop := match o with CFunc _ => False | _ => True end.
+
+Lemma apply_decos_noncfunc ds : forall c n o o' c', not_cfunc o ->
+  apply_decos c n ds o = Ok (o', c') -> roles ds = [] /\ o' = o /\ c' = c.
+Proof.
+  induction ds as [|d r IH]; intros c n o o' c' Hn H; simpl in H.
+  - inversion H; auto.
+  - destruct d; destruct o; simpl in Hn; try contradiction; simpl in H; try discriminate;
+      apply IH in H; simpl; auto.
+Qed.
+
+Lemma apply_deco_role_noncfunc c n d i o c' : is_other d = false ->
+  apply_deco c n d (CFunc i) = Ok (o, c') -> not_cfunc o.
+Proof.
+  destruct d; simpl; try discriminate; intros _ H.
+  - inversion H; exact I.
+  - inversion H; exact I.
+  - destruct (String.eqb base n); [|discriminate]. destruct (lookup base (ns c)) as [[| | |]|]; inversion H; exact I.
+  - destruct (String.eqb base n); [|discriminate]. destruct (lookup base (ns c)) as [[| | |]|]; inversion H; exact I.
+Qed.
+
+Lemma apply_decos_cfunc ds : forall c n i o c',
+  apply_decos c n ds (CFunc i) = Ok (o, c') ->
+  (roles ds = [] /\ o = CFunc i /\ c' = c) \/
+  (exists d, roles ds = [d] /\ apply_deco c n d (CFunc i) = Ok (o, c')).
+Proof.
+  induction ds as [|d r IH]; intros c n i o c' H; simpl in H.
+  - inversion H; auto.
+  - destruct (is_other d) eqn:Ed.
+    + destruct d; try discriminate. simpl in H. apply IH in H. simpl. exact H.
+    + destruct (apply_deco c n d (CFunc i)) as [[o1 c1]|e] eqn:Ea; [|discriminate].
+      pose proof (apply_deco_role_noncfunc _ _ _ _ _ _ Ed Ea) as Hn.
+      destruct (apply_decos_noncfunc _ _ _ _ _ _ Hn H) as [Hr [Ho Hc]]. subst o c'.
+      right. exists d. unfold roles in *. simpl. rewrite Ed. simpl. rewrite Hr. auto.
+Qed.
+
+Definition agrees (n : string) (s : scope) (c : cstate) (att : list Z) : Prop :=
+  reg n c = att ++ buf n s /\
+  match lookup n (ns c) with
+  | Some (CProp g st dl) => mem n s = Some (MProp g st dl)
+  | Some (CFunc i) => exists ovs, mem n s = Some (MFunc i ovs)
+  | Some (COtherObj i) => mem n s = Some (MOther i)
+  | Some CDummy => True
+  | None => mem n s = None
+  end.
+
+Definition attached_by (n : string) (it : item) (o : outcome) : list Z :=
+  if String.eqb (iname it) n then match o with OImpl ovs => ovs | _ => [] end else [].
+
+Lemma reg_assign_same n v nsx r : reg n (mkC nsx (assign n v r)) = v.
+Proof. unfold reg. simpl. rewrite lookup_assign_same. reflexivity. Qed.
+Lemma reg_assign_other n m v nsx r : n <> m -> reg m (mkC nsx (assign n v r)) = reg m (mkC nsx r).
+Proof. intros H. unfold reg. simpl. rewrite lookup_assign_other by exact H. reflexivity. Qed.
+
+Ltac split3 L M B HO :=
+  pose proof (f_equal (fun x => fst (fst x)) L) as M; pose proof (f_equal (fun x => snd (fst x)) L) as B;
+  pose proof (f_equal snd L) as HO; cbn [fst snd] in M, B, HO.
+
+(* one definition or binder, executed by CPython without error, keeps the two views in agreement *)
+Lemma step_agrees s c it c' (A : string -> list Z) :
+  tracks s = true -> (forall n, agrees n s c (A n)) -> cpy_item c it = Ok c' ->
+  forall n, agrees n (step s it) c' (A n ++ attached_by n it (snd (handle_item s it))).
+Proof.
+  intros Ht Hag Hc n.
+  destruct (String.eqb (iname it) n) eqn:E.
+  2:{ (* another name: nothing moves on either side *)
+    apply String.eqb_neq in E. destruct (step_other_name s it n E) as [H1 H2].
+    unfold attached_by. assert (E' : String.eqb (iname it) n = false) by (apply String.eqb_neq; exact E).
+    rewrite E', app_nil_r. destruct (Hag n) as [G1 G2]. unfold agrees. rewrite H1, H2.
+    assert (Hns : lookup n (ns c') = lookup n (ns c) /\ reg n c' = reg n c).
+    { destruct it as [f|i m]; simpl in *.
+      - destruct (existsb is_foreign (fdecos f)); [discriminate|].
+        destruct (eval_decos c (fdecos f)); [discriminate|].
+        destruct (apply_decos c (fname f) (rev (fdecos f)) (CFunc (fid f))) as [[o c1]|e] eqn:Ea; [|discriminate].
+        inversion Hc; subst c'. simpl. rewrite lookup_assign_other by exact E.
+        destruct (apply_decos_cfunc _ _ _ _ _ _ Ea) as [[_ [_ Hc1]]|[d [_ Hd]]].
+        + subst c1. auto.
+        + destruct d; simpl in Hd; try discriminate.
+          * inversion Hd; subst. simpl. split; [reflexivity|]. unfold reg. simpl. rewrite lookup_assign_other by exact E. reflexivity.
+          * inversion Hd; subst. auto.
+          * destruct (String.eqb base (fname f)); [|discriminate].
+            destruct (lookup base (ns c)) as [[| | |]|]; inversion Hd; subst; auto.
+          * destruct (String.eqb base (fname f)); [|discriminate].
+            destruct (lookup base (ns c)) as [[| | |]|]; inversion Hd; subst; auto.
+          * inversion Hd; subst. auto.
+      - inversion Hc; subst c'. simpl. rewrite lookup_assign_other by exact E. auto. }
+    destruct Hns as [N1 N2]. rewrite N1, N2. auto. }
+  apply String.eqb_eq in E. unfold attached_by. rewrite (proj2 (String.eqb_eq _ _) E).
+  pose proof (handle_item_local s it) as L. rewrite E, Ht in L.
+  destruct (Hag n) as [G1 G2].
+  destruct it as [f|i m]; simpl in *.
+  2:{ (* another binder *)
+    subst m. inversion Hc; subst c'. split3 L M B HO. unfold agrees. simpl.
+    rewrite lookup_assign_same, M, B, app_nil_r. auto. }
+  destruct (existsb is_foreign (fdecos f)); [discriminate|].
+  destruct (eval_decos c (fdecos f)); [discriminate|].
+  destruct (apply_decos c (fname f) (rev (fdecos f)) (CFunc (fid f))) as [[o c1]|e] eqn:Ea; [|discriminate].
+  inversion Hc; subst c'. clear Hc. unfold agrees. simpl. rewrite E, lookup_assign_same.
+  destruct f as [i fn ds]. simpl in *. subst fn.
+  rewrite <- local_fn_roles in L.
+  destruct (apply_decos_cfunc _ _ _ _ _ _ Ea) as [[Hr [Ho Hc1]]|[d [Hr Hd]]];
+    rewrite roles_rev in Hr.
+  - (* a plain implementation *)
+    apply (f_equal (@rev deco)) in Hr. rewrite rev_involutive in Hr. simpl in Hr. rewrite Hr in L.
+    subst o c1. unfold local_fn in L. simpl in L. split3 L M B HO.
+    rewrite M, B, HO, app_nil_r. split; [exact G1|eauto].
+  - apply (f_equal (@rev deco)) in Hr. rewrite rev_involutive in Hr. simpl in Hr. rewrite Hr in L.
+    destruct d; simpl in Hd; try discriminate.
+    + (* an overload *)
+      inversion Hd; subst o c1. unfold local_fn in L. simpl in L. split3 L M B HO.
+      rewrite B, HO, app_nil_r. simpl. rewrite reg_assign_same, G1, app_assoc. auto.
+    + (* a property *)
+      inversion Hd; subst o c1. unfold local_fn in L. simpl in L. split3 L M B HO.
+      rewrite M, B, HO, app_nil_r. auto.
+    + (* a setter: CPython needs the name bound to a property, and then so does Griffe *)
+      destruct (String.eqb base n) eqn:Eb; [|discriminate]. apply String.eqb_eq in Eb. subst base.
+      destruct (lookup n (ns c)) as [[| |g st dl|]|] eqn:En; try discriminate.
+      inversion Hd; subst o c1. rewrite G2 in L. unfold local_fn in L. simpl in L.
+      rewrite String.eqb_refl in L. simpl in L. split3 L M B HO.
+      rewrite M, B, HO, app_nil_r. auto.
+    + destruct (String.eqb base n) eqn:Eb; [|discriminate]. apply String.eqb_eq in Eb. subst base.
+      destruct (lookup n (ns c)) as [[| |g st dl|]|] eqn:En; try discriminate.
+      inversion Hd; subst o c1. rewrite G2 in L. unfold local_fn in L. simpl in L.
+      rewrite String.eqb_refl in L. simpl in L. split3 L M B HO.
+      rewrite M, B, HO, app_nil_r. auto.
+    + (* (a pass-through decorator is never a role) *)
+      inversion Hd; subst o c1. unfold local_fn in L. simpl in L. split3 L M B HO.
+      rewrite M, B, HO, app_nil_r. split; [exact G1|eauto].
+Qed.
+
+Lemma attached_cons n it o l :
+  attached n ((it, o) :: l) = attached_by n it o ++ attached n l.
+Proof. reflexivity. Qed.
+
+Lemma bodies_agree_gen : forall its s c c' (A : string -> list Z),
+  tracks s = true -> (forall n, agrees n s c (A n)) -> cpy_exec its c = Ok c' ->
+  forall n, agrees n (visit_items its s) c' (A n ++ attached n (combine its (visit_log its s))).
+Proof.
+  induction its as [|it r IH]; intros s c c' A Ht Hag Hc n.
+  - simpl in *. inversion Hc; subst c'. unfold attached. simpl. rewrite app_nil_r. apply Hag.
+  - simpl in Hc. destruct (cpy_item c it) as [c1|e] eqn:Ei; [|discriminate].
+    change (visit_items (it :: r) s) with (visit_items r (step s it)).
+    change (visit_log (it :: r) s) with (snd (handle_item s it) :: visit_log r (step s it)).
+    change (combine (it :: r) (snd (handle_item s it) :: visit_log r (step s it)))
+      with ((it, snd (handle_item s it)) :: combine r (visit_log r (step s it))).
+    rewrite attached_cons, app_assoc.
+    apply (IH (step s it) c1 c' (fun m => A m ++ attached_by m it (snd (handle_item s it)))); auto.
+    + rewrite tracks_step. exact Ht.
+    + intros m. apply (step_agrees s c it c1 A); auto.
+Qed.
+
+(* THE agreement theorem.  For every module/class body that CPython executes without error (each definition
+   carrying at most one role decorator, accessors only for a name currently bound to a property):
+   - typing's registry for a name = the overload lists Griffe attached to the successive implementations of that
+     name, concatenated in order, followed by Griffe's pending overloads of the name;
+   - a name bound to a property (fget, fset, fdel) / a function / another object in CPython's namespace is the
+     same property (getter, setter, deleter) / that function / that object among Griffe's members. *)
+Theorem bodies_agree_with_cpython its c :
+  cpy_exec its (mkC [] []) = Ok c ->
+  let s0 := mkScope true [] [] in
+  forall n, agrees n (visit_items its s0) c (attached n (combine its (visit_log its s0))).
+Proof.
+  intros Hc s0 n.
+  apply (bodies_agree_gen its s0 (mkC [] []) c (fun _ => [])); auto.
+  intros m. unfold agrees, reg, buf, mem. simpl. auto.
+Qed.
+
+(* the everyday case: when no earlier implementation of the name took overloads (a single overload group, the only
+   shape type checkers accept), typing.get_overloads of the final function is exactly Function.overloads *)
+Corollary overloads_eq_get_overloads its c n i ovs :
+  cpy_exec its (mkC [] []) = Ok c ->
+  let s0 := mkScope true [] [] in
+  lookup n (ns c) = Some (CFunc i) ->
+  mem n (visit_items its s0) = Some (MFunc i ovs) ->
+  attached n (combine its (visit_log its s0)) = ovs -> buf n (visit_items its s0) = [] ->
+  reg n c = ovs.
+Proof.
+  intros Hc s0 Hn Hm Ha Hb. destruct (bodies_agree_with_cpython its c Hc n) as [G1 _].
+  fold s0 in G1. rewrite G1, Ha, Hb, app_nil_r. reflexivity.
+Qed.
+
+(* ---------- non-vacuity ---------- *)
+Example overloads_example :
+  let o1 := IDef (mkF 1 "g" [DOverload]) in let o2 := IDef (mkF 2 "g" [DOther; DOverload]) in
+  let h := IDef (mkF 3 "h" []) in let impl := IDef (mkF 4 "g" [DOther]) in
+  mem "g" (visit_items [o1; h; o2; impl] (mkScope true [] [])) = Some (MFunc 4 [1%Z; 2%Z]).
+Proof. reflexivity. Qed.
+
+Example setter_example :
+  let p := IDef (mkF 1 "x" [DProperty]) in let st := IDef (mkF 2 "x" [DSetter "x"]) in let dl := IDef (mkF 3 "x" [DDeleter "x"]) in
+  mem "x" (visit_items [p; st; dl] (mkScope true [] [])) = Some (MProp 1 (Some 2%Z) (Some 3%Z)).
+Proof. reflexivity. Qed.
+
+(* the same name overloaded and implemented twice (the two branches of an if/else, flattened): each implementation
+   has its own two overloads; the hypotheses of branch_redefinition hold for the split between the branches *)
+Example redefinition_example :
+  let br1 := [IDef (mkF 1 "f" [DOverload]); IDef (mkF 2 "f" [DOverload]); IDef (mkF 3 "f" [])] in
+  let br2 := [IDef (mkF 4 "f" [DOverload]); IDef (mkF 5 "f" [DOverload]); IDef (mkF 6 "f" [])] in
+  let s0 := mkScope true [] [] in
+  visit_log (br1 ++ br2) s0 = [OOverload; OOverload; OImpl [1%Z; 2%Z]; OOverload; OOverload; OImpl [4%Z; 5%Z]] /\
+  buf "f" (visit_items br1 s0) = buf "f" s0 /\ rebinds_first "f" br2 = true /\
+  mem "f" (visit_items (br1 ++ br2) s0) = mem "f" (visit_items br2 s0).
+Proof. repeat split; reflexivity. Qed.
+
+Example agreement_example :
+  let body := [IDef (mkF 1 "f" [DOverload]); IDef (mkF 2 "x" [DProperty]); IDef (mkF 3 "f" [DOther; DOverload]);
+               IDef (mkF 4 "x" [DSetter "x"]); IDef (mkF 5 "f" [DOther]); IBind 6 "g"; IDef (mkF 7 "g" [DOverload])] in
+  cpy_exec body (mkC [] []) =
+    Ok (mkC [("f", CFunc 5); ("x", CProp 2 (Some 4%Z) None); ("g", CDummy)] [("f", [1%Z; 3%Z]); ("g", [7%Z])]) /\
+  members (visit_items body (mkScope true [] [])) =
+    [("x", MProp 2 (Some 4%Z) None); ("f", MFunc 5 [1%Z; 3%Z]); ("g", MOther 6)] /\
+  buffer (visit_items body (mkScope true [] [])) = [("g", [7%Z])].
+Proof. repeat split; reflexivity. Qed.
+
+(* the tables: classification of callable paths (generated tables are what the source says today) *)
+Example classify_example :
+  classify "m.C.x" "typing.overload" = DOverload /\ classify "m.C.x" "functools.cached_property" = DProperty /\
+  classify "m.C.x" "m.C.x.setter" = DSetter "m.C.x" /\ classify "m.C.x" "m.C.y.deleter" = DForeign /\
+  classify "m.C.x" "functools.cache" = DOther /\ classify "m.C.x" "staticmethod" = DOther.
+Proof. repeat split; reflexivity. Qed.
+
+(* a path is in at most one role table, so the order of the tests in classify is immaterial *)
+Theorem classify_tables_disjoint :
+  forallb (fun p => negb (in_strings p property_paths)) overload_paths = true /\
+  forallb (fun p => match rsplit_dot p with
+                    | Some (_, last) => match lookup last accessor_names with Some _ => false | None => true end
+                    | None => true end) (overload_paths ++ property_paths) = true.
+Proof. split; reflexivity. Qed.
